@@ -22,7 +22,7 @@ def equil(params, ns, pts):
     Note:
         DFE methods internally apply make_extrap_func, so there is no need to make it extrapolate again.
     """
-    gamma = params[0]
+    gamma, = params
 
     xx = Numerics.default_grid(pts)
     phi = PhiManip.phi_1D(xx, gamma=gamma)
